@@ -492,6 +492,14 @@ Proof.
   cbn. apply IH. exact H3.
 Qed.
 
+Lemma rep_std12 : forall F a b c Y T, Rep (base3 F a b c) Y T ->
+  lookup T 1 = Some (b, false) /\ lookup T 2 = Some (c, false).
+Proof.
+  intros F a b c Y T R. split.
+  - rewrite (rep_lookup _ _ _ _ R); [reflexivity | eapply base3_not_key; [exact R | lia]].
+  - rewrite (rep_lookup _ _ _ _ R); [reflexivity | eapply base3_not_key; [exact R | lia]].
+Qed.
+
 Theorem child_spec : forall F i0 o0 e0 pipes capo cape capture idx st hs Hl p,
   cap_ok capture capo cape -> idx <= length pipes -> here_ok idx st hs Hl ->
   Rep (base3 F i0 o0 e0) (Hl ++ Lpar pipes capo cape idx) (tab p) ->
@@ -505,7 +513,11 @@ Theorem child_spec : forall F i0 o0 e0 pipes capo cape capture idx st hs Hl p,
      let fs := final_sinks capture last (s_redirs st) (pro_out o0 (length pipes) idx) e0 in
      exists Y, Rep (fun x => drop_cx (base3 F (from_obj (pro_in i0 idx) idx st) (fst fs) (snd fs) x))
                    (filter noncx Y) (tab (k_proc k)) /\
-               (clean capture last (s_redirs st) = true -> all_cx Y)).
+               (clean capture last (s_redirs st) = true -> all_cx Y)) /\
+  (* a builtin that runs in this child prints on these descriptors 1 and 2 *)
+  (s_kind st = KBuiltin -> opens_ok st = true ->
+     let fs := final_sinks capture last (s_redirs st) (pro_out o0 (length pipes) idx) e0 in
+     lookup (tab (k_proc k)) 1 = Some (fst fs, false) /\ lookup (tab (k_proc k)) 2 = Some (snd fs, false)).
 Proof.
   intros F i0 o0 e0 pipes capo cape capture idx st hs Hl p CO LE HO R k last.
   pose proof (prologue_rep _ _ _ _ _ _ _ _ _ _ _ CO LE R) as RA.
@@ -513,7 +525,7 @@ Proof.
   set (pa := child_prologue pipes capo cape idx p) in *.
   pose proof (from_rep _ _ _ _ _ _ _ _ _ _ HO RA) as RB.
   destruct (child_from openable st hs pa) as [pb|q].
-  2:{ rewrite RB. cbn. repeat split; try reflexivity; intro; discriminate. }
+  2:{ rewrite RB. cbn. repeat split; try reflexivity; intros; discriminate. }
   destruct RB as (FO & RB). rewrite FO. cbn [andb].
   assert (NL : (idx <? length pipes) = negb last).
   { subst last. destruct (Nat.ltb_spec idx (length pipes)), (Nat.eqb_spec idx (length pipes)); try reflexivity; lia. }
@@ -542,26 +554,30 @@ Proof.
     pose proof (redirs_rep (idx <? length pipes) false (s_redirs st) _ _ _ _ _ _ false false RB') as RC.
     cbv zeta in RC. cbn [negb] in RC. rewrite orb_true_r in RC.
     destruct (child_redirs v openable (idx <? length pipes) false (s_redirs st) false false pb') as [[[pc so] se]|q].
-    2:{ rewrite RC. cbn. repeat split; try reflexivity; intro; discriminate. }
+    2:{ rewrite RC. cbn. repeat split; try reflexivity; intros; discriminate. }
     destruct RC as (PO & SO & SE & X & RX & DX). rewrite PO.
     unfold child_finish.
+    assert (RPRE : Rep (base3 F (from_obj (pro_in i0 idx) idx st)
+                          (fst (final_sinks capture last (s_redirs st) (pro_out o0 (length pipes) idx) e0))
+                          (snd (final_sinks capture last (s_redirs st) (pro_out o0 (length pipes) idx) e0))) X (tab pc)).
+    { rewrite FS. unfold eff in RX. rewrite app_nil_r in RX. exact RX. }
     split; [destruct (s_kind st); reflexivity|]. split; [discriminate|]. split; [intros _; destruct (s_kind st); reflexivity|].
-    destruct (s_kind st); cbn [k_out k_proc]; try discriminate. intros _.
-    exists X. split.
-    + rewrite tab_p_exec. apply rep_exec. rewrite FS. unfold eff in RX. rewrite app_nil_r in RX. exact RX.
-    + unfold clean. rewrite VC. cbn [negb]. rewrite !andb_false_r. cbn [negb]. rewrite andb_true_r. rewrite <- NL.
-      intro C. apply DX. apply negb_true_iff in C. exact C.
+    split.
+    + destruct (s_kind st); cbn [k_out k_proc]; try discriminate. intros _.
+      exists X. split.
+      * rewrite tab_p_exec. apply rep_exec. exact RPRE.
+      * unfold clean. rewrite VC. cbn [negb]. rewrite !andb_false_r. cbn [negb]. rewrite andb_true_r. rewrite <- NL.
+        intro C. apply DX. apply negb_true_iff in C. exact C.
+    + intros KB _. rewrite KB. cbn [k_proc]. rewrite tab_p_ev. cbv zeta. exact (rep_std12 _ _ _ _ _ _ RPRE).
   - (* ---- the code as it is ---- *)
   cbn [negb]. rewrite !andb_false_r, !andb_true_r.
   pose proof (redirs_rep (idx <? length pipes) capture (s_redirs st) _ _ _ _ _ _ false false RB) as RC.
   cbv zeta in RC.
   destruct (child_redirs v openable (idx <? length pipes) capture (s_redirs st) false false pb) as [[[pc so] se]|q].
-  2:{ rewrite RC. cbn. repeat split; try reflexivity; intro; discriminate. }
+  2:{ rewrite RC. cbn. repeat split; try reflexivity; intros; discriminate. }
   destruct RC as (PO & SO & SE & X & RX & DX). rewrite PO. cbn [orb] in SO, SE.
   unfold child_finish.
-  split; [destruct (s_kind st); reflexivity|]. split; [discriminate|]. split; [intros _; destruct (s_kind st); reflexivity|].
-  destruct (s_kind st); cbn [k_out k_proc]; try discriminate. intros _.
-  (* the table before exec *)
+  (* the table before exec / before the builtin runs *)
   assert (exists Y, Rep (base3 F (from_obj (pro_in i0 idx) idx st)
                                (fst (final_sinks capture last (s_redirs st) (pro_out o0 (length pipes) idx) e0))
                                (snd (final_sinks capture last (s_redirs st) (pro_out o0 (length pipes) idx) e0)))
@@ -591,8 +607,12 @@ Proof.
         exists X. split.
         * rewrite app_nil_r in RX. unfold eff in RX. exact RX.
         * intro C. apply DX. rewrite andb_true_r in C. apply negb_true_iff in C. exact C. }
-  exists Y. split; [|exact CY].
-  rewrite tab_p_exec. apply rep_exec. exact RY.
+  split; [destruct (s_kind st); reflexivity|]. split; [discriminate|]. split; [intros _; destruct (s_kind st); reflexivity|].
+  split.
+  + destruct (s_kind st); cbn [k_out k_proc]; try discriminate. intros _.
+    exists Y. split; [|exact CY].
+    rewrite tab_p_exec. apply rep_exec. exact RY.
+  + intros KB _. rewrite KB. cbn [k_proc]. rewrite tab_p_ev. cbv zeta. exact (rep_std12 _ _ _ _ _ _ RY).
 Qed.
 
 (* ------------------------------------------------------------------ every stage of every pipeline *)
@@ -607,7 +627,10 @@ Definition kid_spec (F : nat -> option entry) (i0 o0 e0 : obj) (pc : nat) (captu
      let fs := final_sinks capture last (s_redirs st) (pro_out o0 pc idx) e0 in
      exists Y, Rep (fun x => drop_cx (base3 F (from_obj (pro_in i0 idx) idx st) (fst fs) (snd fs) x))
                    (filter noncx Y) (tab (k_proc k)) /\
-               (clean capture last (s_redirs st) = true -> all_cx Y)).
+               (clean capture last (s_redirs st) = true -> all_cx Y)) /\
+  (s_kind st = KBuiltin -> opens_ok st = true ->
+     let fs := final_sinks capture last (s_redirs st) (pro_out o0 pc idx) e0 in
+     lookup (tab (k_proc k)) 1 = Some (fst fs, false) /\ lookup (tab (k_proc k)) 2 = Some (snd fs, false)).
 
 Fixpoint kids_ok (P : nat -> stage -> kid -> Prop) (idx : nat) (sts : list stage) (ks : list kid) : Prop :=
   match sts, ks with
@@ -719,7 +742,7 @@ Lemma kid_std_fds : forall F i0 o0 e0 pc capture idx st k,
   lookup (tab (k_proc k)) 1 = Some (fst fs, false) /\
   lookup (tab (k_proc k)) 2 = Some (snd fs, false).
 Proof.
-  intros F i0 o0 e0 pc capture idx st k (_ & _ & _ & H) HE fs. destruct (H HE) as (Y & R & _).
+  intros F i0 o0 e0 pc capture idx st k (_ & _ & _ & H & _) HE fs. destruct (H HE) as (Y & R & _).
   assert (G : forall x, x < 3 -> lookup (tab (k_proc k)) x
               = drop_cx (base3 F (from_obj (pro_in i0 idx) idx st) (fst fs) (snd fs) x)).
   { intros x Hx. apply (rep_lookup _ _ _ _ R). intro Hin. unfold keys in Hin. apply in_map_iff in Hin.
@@ -736,7 +759,7 @@ Lemma kid_clean_above : forall F i0 o0 e0 pc capture idx st k,
   clean capture (idx =? pc) (s_redirs st) = true ->
   forall x, 3 <= x -> lookup (tab (k_proc k)) x = drop_cx (F x).
 Proof.
-  intros F i0 o0 e0 pc capture idx st k (_ & _ & _ & H) HE C x Hx. destruct (H HE) as (Y & R & CY).
+  intros F i0 o0 e0 pc capture idx st k (_ & _ & _ & H & _) HE C x Hx. destruct (H HE) as (Y & R & CY).
   rewrite (filter_noncx_allcx _ (CY C)) in R. rewrite (proj1 (rep_nil _ _) R).
   destruct x as [|[|[|x]]]; try lia. reflexivity.
 Qed.
